@@ -31,6 +31,9 @@ CONFIGS = {
     "asan-hsw": ("g++", ASAN + HSW),
     "prod-hsw": ("g++", PROD + HSW),
     "asan-wsm": ("g++", ASAN + WSM),
+    # a second compiler: argument evaluation order and other unspecified behaviour differ between g++ and clang++
+    "prod-hsw-clang": ("clang++", PROD + HSW),
+    "prod-wsm-clang": ("clang++", PROD + WSM),
     "prod-wsm": ("g++", PROD + WSM),
     # the adaptive chunk policy clamps its growth at SONIC_ALLOCATOR_MAX_CHUNK_CAPACITY (64 KiB by default, far above the
     # explorer's 200-byte requests); the macro is user-overridable, so a build with a cap of 128 brings the clamp into range
@@ -97,10 +100,12 @@ CHECKS = {
                 jobs=lambda t: J("lazyenum", "prod-hsw", []) + J("lazyenum", "asan-hsw", []) + (J("lazyenum", "prod-wsm", []) if t == "thorough" else []),
                 rule="all ordered pairs (target, source) of valid duplicate-free texts up to a token budget, keys spelled with and without escapes, plus re-spaced variants: Parse(UpdateLazy(t,s)) succeeds and is value-equal to the recursive merge model with keys matched by decoded value; inputs in exact-size heap buffers under ASan."),
     "C05": dict(level="exploration", engine="strenum",
-                jobs=lambda t: J("strenum", "prod-hsw", []) + J("strenum", "prod-wsm", []) + J("strenum", "asan-hsw", []),
+                jobs=lambda t: J("strenum", "prod-hsw", []) + J("strenum", "prod-wsm", []) + J("strenum", "asan-hsw", []) + (J("strenum", "prod-hsw-clang", []) if t == "thorough" else []),
                 rule="string literals built from atom sequences / raw bytes / \\u escapes at every offset relative to the 16/32-byte blocks, as root, array value, object key and on-demand key, against the scalar reference decoder: accepted <=> reference accepts, decoded bytes equal; plus \\uH\\uL pairs directly through parseStringInplace (thorough: all 2^32)."),
     "C08": dict(level="exploration", engine="kernels",
-                jobs=lambda t: J("kernels", "prod-hsw", ["--prop", "C08"]) + J("kernels", "asan-hsw", ["--prop", "C08"]) + (J("kernels", "prod-wsm", ["--prop", "C08"]) if t == "thorough" else []),
+                jobs=lambda t: J("kernels", "prod-hsw", ["--prop", "C08"]) + J("kernels", "asan-hsw", ["--prop", "C08"]) + J("kernels", "prod-hsw-clang", ["--prop", "C08"]) +
+                (J("kernels", "prod-wsm", ["--prop", "C08"]) + J("kernels", "prod-wsm-clang", ["--prop", "C08"]) if t == "thorough" else []),
+                budget=dict(quick=300, thorough=3000),
                 rule="U64toa/I64toa output == snprintf(%llu/%lld), returned length exact, nothing written before the buffer or beyond out+32: every value below 10^8 (whole 1-8 digit kernel), every low 8-digit group under boundary high parts (whole vectorised splitter), all composed boundary values h*10^16+a*10^8+b, powers of 2 and 10 +-2, extremes; Serialize+Parse keeps the integer kind."),
     "C09": dict(level="exploration", engine="kernels",
                 jobs=lambda t: J("kernels", "prod-hsw", ["--prop", "C09"]) + J("kernels", "prod-wsm", ["--prop", "C09"]) + J("kernels", "asan-hsw", ["--prop", "C09"]) +
@@ -113,10 +118,10 @@ CHECKS = {
                 jobs=lambda t: J("kernels", "prod-hsw", ["--prop", "C14"]) + J("kernels", "asan-hsw", ["--prop", "C14"]) + J("kernels", "prod-wsm", ["--prop", "C14"]) + (J("kernels", "prod-dyn", ["--prop", "C14"]) if t == "thorough" else []),
                 rule="InlinedMemcmpEq == (memcmp==0) and sign(InlinedMemcmp)==sign(memcmp) for every length, every first-difference index, sign-sensitive byte pairs, a later opposite difference, both operands placed independently 0..40 bytes before an unmapped page / at every start offset mod 32; FindMember/HasMember with and without the lookup map agree with byte equality."),
     "C04": dict(level="exploration", engine="numenum",
-                jobs=lambda t: J("numenum", "prod-hsw", []) + J("numenum", "asan-hsw", []) + (J("numenum", "prod-wsm", []) if t == "thorough" else []),
+                jobs=lambda t: J("numenum", "prod-hsw", []) + J("numenum", "asan-hsw", []) + (J("numenum", "prod-wsm", []) + J("numenum", "prod-hsw-clang", []) if t == "thorough" else []),
                 rule="number spellings of families N1..N6 parsed as root, array element and object member: integer that fits -> exact integer kind; otherwise IsDouble with the bit pattern of glibc strtod; overflow -> kParseErrorInfinity. For the halfway families (exact midpoints between adjacent doubles, one unit below/above, re-spelled with the point at every position and up to 1100 mantissa digits) the expected double is computed exactly by big-integer arithmetic in the harness and glibc is cross-checked against it."),
     "C07": dict(level="exploration", engine="ftoaenum",
-                jobs=lambda t: J("ftoaenum", "prod-hsw", []) + (J("ftoaenum", "asan-hsw", ["--only", "D2_decimal_table_rows"]) + J("ftoaenum", "asan-hsw", ["--only", "D3b_format_switch_points"], label="asan-hsw/D3b") +
+                jobs=lambda t: J("ftoaenum", "prod-hsw", []) + (J("ftoaenum", "prod-hsw-clang", ["--only", "D1_exponent_x_pattern"], label="prod-hsw-clang/D1") if t == "thorough" else []) + (J("ftoaenum", "asan-hsw", ["--only", "D2_decimal_table_rows"]) + J("ftoaenum", "asan-hsw", ["--only", "D3b_format_switch_points"], label="asan-hsw/D3b") +
                 J("serenum", "asan-hsw", ["--only", "T5_number_packing"], label="asan-hsw/serializer-number-reserve") +
                 J("serenum", "prod-hsw", ["--only", "T7_neighbouring_numbers"], label="prod-hsw/serializer-neighbouring-numbers")),
                 budget=dict(quick=200, thorough=4000),
